@@ -112,6 +112,11 @@ def judge(res, case, o, miss, label, hit=None, f=None, out=None):
     fclass = history.fault_class(case["faults"]) if case["faults"] else label
     dflt = "defaults" if (op[2].get("default") is S1 or (len(op[1]) > 1 and op[1][1] is S1)) else "nodefaults"
     res.count("miss_equivalence_checks")
+    for kind, detail in rec.get("alarms", ()):
+        if kind == "BLOCKED_RECV":
+            res.violation("read-never-returns:%s:%s" % (stack, op[0]),
+                          "%s.%s under %s would not return on a real connection: %s" % (stack, op[0], fclass, detail), case)
+            break
     if out[0] != "ret":
         res.violation("read-raises:%s:%s:%s" % (stack, op[0], out[1]),
                       "%s.%s%r %r with ignore_exc raised %s (%s) under %s" % (stack, op[0], op[1], op[2], out[1], out[2], fclass), case)
